@@ -25,6 +25,8 @@ def check(ctx: Ctx):
     io.check_registry(ctx)
     io.check_one_class(ctx)
     io.check_file_modes(ctx)
+    io.check_no_cached_state(ctx)
+    io.check_writers_propagate(ctx)
     io.check_sequence_keys(ctx, f"{EM}.EmulsionTimeCourse.to_file", f"{EM}.EmulsionTimeCourse.from_file", "_write_hdf_dataset", "EmulsionTimeCourse")
     io.check_sequence_keys(ctx, f"{TR}.DropletTrackList.to_file", f"{TR}.DropletTrackList.from_file", "_write_hdf_dataset", "DropletTrackList")
     io.check_timecourse_time(ctx)
@@ -37,12 +39,18 @@ def check(ctx: Ctx):
     nonetest.check(ctx, m.func(f"{TR}.DropletTrack.append"), "time", "the time stamp")
     nonetest.check(ctx, m.func(f"{EM}.EmulsionTimeCourse.append"), "time", "the time stamp")
     io.check_nan_width(ctx)
+    # … and every stored frame / row comes back as one new member: append adds exactly one member per call
+    col.check_pair_methods(ctx)
+    from ..rules import tracking
+
+    tracking.check_track_append(ctx, rules=("PAIR",))
+    ctx.expect("PAIR", 5)
     col.check_copy_total(ctx)
     ctx.expect("NONETEST", 2)
     ctx.expect("COPYALL", 2)
     io.check_exact_eq(ctx)
     io.check_layouts(ctx)
-    ctx.expect("IOAGREE", 34)
+    ctx.expect("IOAGREE", 41)
     ctx.expect("LAYOUT", 5)
     ctx.trust("h5py / NumPy store and load structured arrays bit-exactly", "a 6-digit zero-padded key preserves order for up to 10^6 members")
     ctx.assume("partial files after an exception in a later member are not analysed")
